@@ -4,12 +4,15 @@ The world (which metadata files exist where, under which names, valid or damaged
 cd_mkdir / cd_rm ops; the harness keeps a record {path: {kind, tag, damage}} so the oracle knows which file
 an accessor must have read.
 """
+import gc
 import posixpath
+import weakref
 
 from ..core import register_machine, Violation, MachineBase
 from ..seams import CTX, HarnessError
 from ..util import cjson, h64, exc_class
 from .. import pools
+from .. import simnet
 
 KINDS = {"info": "composeinfo", "images": "images", "rpms": "rpms", "modules": "modules"}
 CANDIDATES = {
@@ -20,12 +23,15 @@ CANDIDATES = {
 }
 
 
-def make_doc(kind, tag):
-    """A small valid document of `kind`, made distinct by `tag` (written by productmd itself)."""
+def make_doc(kind, tag, empty=False):
+    """A small valid document of `kind`, made distinct by `tag` (written by productmd itself); `empty`: a manifest that
+    lists nothing yet (a compose without images / modules is a valid compose)"""
     import productmd.composeinfo, productmd.images, productmd.rpms, productmd.modules
     respin = int(tag)
     cid = "T-1.0-20200101.%d" % respin
-    if kind == "composeinfo":
+    if empty and kind != "composeinfo":
+        o = {"images": productmd.images.Images, "rpms": productmd.rpms.Rpms, "modules": productmd.modules.Modules}[kind]()
+    elif kind == "composeinfo":
         o = productmd.composeinfo.ComposeInfo()
         o.release.name, o.release.short, o.release.version, o.release.type = "Test", "T", "1.0", "ga"
         v = productmd.composeinfo.Variant(o)
@@ -86,6 +92,8 @@ class CDMachine(MachineBase):
         self.cached = {}        # attr -> object
         self.world_at_open = None
         self.cached_tag = {}
+        self.remote = cfg.get("remote")        # None | "http" | "https": the compose is addressed by URL on the simulated host
+        self.net = ctx.net
         self.fs.mkdirs("/sim/c")
 
     def state_hash(self):
@@ -94,7 +102,9 @@ class CDMachine(MachineBase):
     # ---- world ------------------------------------------------------------------------------
     def op_cd_put(self, op):
         path = posixpath.normpath(op["path"])
-        text = make_doc(op["kind"], op["tag"])
+        text = make_doc(op["kind"], op["tag"], op.get("empty", False))
+        if op.get("empty"):
+            CTX.probe("c20.manifest_that_lists_nothing")
         self.fs.put(path, damage(text, op.get("damage")))
         self.rec[path] = {"kind": op["kind"], "tag": op["tag"], "damage": op.get("damage")}
         if op.get("damage"):
@@ -120,6 +130,11 @@ class CDMachine(MachineBase):
         'link/..' is the parent of the link's TARGET), as a normalised path under the virtual root"""
         import os
         from .. import simfs
+        if "://" in p:
+            q = simnet.sim_of(p)
+            if q is None:
+                raise Violation("C20", "C20.layout_resolution", "compose_path-on-another-host", {"got": p[:120]})
+            return q
         real = os.path.realpath(simfs.to_real(simfs.resolve(p)))
         return posixpath.normpath(simfs.to_sim(real))
 
@@ -157,6 +172,9 @@ class CDMachine(MachineBase):
             return [root + "/compose"], "compose-preferred"
         legacy = self._legacy_candidates(root)
         direct = (root + "/metadata") in self.fs.dirs
+        if self.remote and legacy:
+            # directories cannot be listed over HTTP: whether a version-named subdirectory is found there is not promised
+            return legacy + [root], "remote+legacy(silent)"
         if not legacy:
             return [root], "direct" if direct else "nothing"
         if len(legacy) == 1 and not direct:
@@ -173,24 +191,47 @@ class CDMachine(MachineBase):
         k = op.get("repeat", 1)
         arg = given
         cwd = self.cfg.get("cwd")
-        if op.get("relative") and cwd and given.startswith(cwd.rstrip("/") + "/"):
+        if self.remote:
+            arg = simnet.url_of(self.remote, given)
+        elif op.get("relative") and cwd and given.startswith(cwd.rstrip("/") + "/"):
             # the compose is addressed RELATIVELY to the current directory (a tool started next to the compose)
             arg = given[len(cwd.rstrip("/")) + 1:]
             if op["relative"] == "dot":
                 arg = "./" + arg
+        net_fault = None
         for i in range(k):
+            if self.remote and op.get("fault") and i == 0:
+                self.net.arm(op["fault"], op.get("nth", 0))
             try:
                 c = productmd.compose.Compose(arg)
             except Exception as e:
                 if isinstance(e, HarnessError):
                     raise
+                if self.remote and self.net.fired:
+                    # the network failed while the layout was being probed: the failure may surface; nothing was opened
+                    self.net.disarm()
+                    self.count("C20", ["open-net-fault", self.net.fired, "raised"])
+                    return "open-fault:" + exc_class(e)
                 raise Violation("C20", "C20.compose_opens", "Compose()-raises/%s" % exc_class(e), {"msg": str(e)[:160], "layout": why})
+            if self.remote:
+                net_fault = net_fault or self.net.fired
+                self.net.disarm()
             results.append(self._simpath(c.compose_path))
         self.compose = c
         self.cpath = given
         self.cached = {}
         self.count("C20", ["open", why, given.endswith("/"), k])
         CTX.probe("c20.layout." + why)
+        if self.remote:
+            CTX.probe("c20.opened_by_url")
+        if net_fault:
+            # a probe was lost: the object may have settled for the location as given; later constructions (no fault) are judged
+            self.count("C20", ["open-net-fault", net_fault, "opened"])
+            want = want + [self.canon(given)]
+            if len(results) > 1:
+                results = results[1:]
+            else:
+                return "open-under-fault:" + why
         if results[0] not in want:
             raise Violation("C20", "C20.layout_resolution", "compose_path-wrong/%s" % why.split("(")[0],
                             {"got": results[0], "want": want, "given": given})
@@ -210,7 +251,7 @@ class CDMachine(MachineBase):
         n_ok = 0
         for i in range(op.get("n", 1)):
             try:
-                c = productmd.compose.Compose(op.get("path", "/sim/c"))
+                c = productmd.compose.Compose(simnet.url_of(self.remote, op.get("path", "/sim/c")) if self.remote else op.get("path", "/sim/c"))
             except Exception as e:
                 if isinstance(e, HarnessError):
                     raise
@@ -242,6 +283,8 @@ class CDMachine(MachineBase):
         import productmd.composeinfo, productmd.images, productmd.rpms, productmd.modules
         if self.compose is None:
             return "noop"
+        if self.remote:
+            return self._access_remote(op)
         attr = op["attr"]
         base = posixpath.normpath(self.compose.compose_path)        # as the object spells it (what its messages name)
         target = self._expected_file(attr)
@@ -256,6 +299,8 @@ class CDMachine(MachineBase):
                 self.fs.arm("F6.eacces_on_open", target)
             else:
                 self.fs.arm("F6.eio_at_offset", target, offset=0)
+        if op.get("gc"):
+            gc.collect()        # the caller kept no reference to what an earlier access returned; a collection happens
         mark = len(self.fs.trace)
         try:
             obj = getattr(self.compose, attr)
@@ -275,7 +320,7 @@ class CDMachine(MachineBase):
             self.count("C20", ["cached", attr, target is None])
             if raised is not None:
                 raise Violation("C20", "C20.loaded_once_then_reused", "cached-access-raises/%s" % exc_class(raised), {"attr": attr})
-            if obj is not self.cached[attr]:
+            if obj is not self.cached[attr]():
                 raise Violation("C20", "C20.loaded_once_then_reused", "cached-object-replaced", {"attr": attr})
             if opens:
                 raise Violation("C20", "C20.loaded_once_then_reused", "file-reopened-on-cached-access", {"attr": attr, "opens": len(opens)})
@@ -328,7 +373,7 @@ class CDMachine(MachineBase):
                 return "damaged:" + exc_class(raised)
             if obj.dumps() != probe.dumps():
                 raise Violation("C20", "C20.accessor_equals_direct_load", "accessor-differs-from-direct-load", {"attr": attr, "file": target})
-            self.cached[attr] = obj
+            self.cached[attr] = weakref.ref(obj)      # the Compose object owns what it loaded, not the observer
             self.cached_tag[attr] = rec["tag"]
             return "loaded-other-encoding"
         if dmg:
@@ -358,6 +403,119 @@ class CDMachine(MachineBase):
         n_open = len([t for t in opens if t[0] == "open_r" and t[1] == target])
         if n_open < 1:
             raise Violation("C20", "C20.accessor_equals_direct_load", "object-returned-without-reading-the-file", {"attr": attr})
-        self.cached[attr] = obj
+        self.cached[attr] = weakref.ref(obj)      # the Compose object owns what it loaded, not the observer
+        self.cached_tag[attr] = rec["tag"]
+        return "loaded"
+
+    # ---- the same accessors when the compose is addressed by URL ------------------------------------------------
+    def _direct(self, attr, path):
+        """what loading the file at `path` directly gives (None if it cannot be loaded)"""
+        import productmd.composeinfo, productmd.images, productmd.rpms, productmd.modules
+        cls = {"info": productmd.composeinfo.ComposeInfo, "images": productmd.images.Images, "rpms": productmd.rpms.Rpms,
+               "modules": productmd.modules.Modules}[attr]
+        o = cls()
+        try:
+            o.loads(self.fs.get(path).decode("utf-8"))
+        except Exception as e:
+            if isinstance(e, HarnessError):
+                raise
+            return None, cls
+        return o, cls
+
+    def _access_remote(self, op):
+        attr = op["attr"]
+        spelled = self.compose.compose_path.rstrip("/")
+        target = self._expected_file(attr)
+        fault = op.get("fault") if op.get("fault") in simnet.FAULT_KINDS else None
+        was_cached = attr in self.cached
+        if fault and not was_cached:
+            self.net.arm(fault, op.get("nth", 0))
+        if op.get("gc"):
+            gc.collect()
+        mark = len(self.net.trace)
+        try:
+            obj = getattr(self.compose, attr)
+            raised = None
+        except Exception as e:
+            if isinstance(e, HarnessError):
+                raise
+            raised = e
+        fired = self.net.fired if (fault and not was_cached) else None
+        self.net.disarm()
+        self.net.fired = None
+        reqs = self.net.trace[mark:]
+        if was_cached:
+            self.count("C20", ["cached-remote", attr, target is None])
+            if raised is not None:
+                raise Violation("C20", "C20.loaded_once_then_reused", "cached-access-raises/%s" % exc_class(raised), {"attr": attr})
+            if obj is not self.cached[attr]():
+                raise Violation("C20", "C20.loaded_once_then_reused", "cached-object-replaced", {"attr": attr})
+            if reqs:
+                raise Violation("C20", "C20.loaded_once_then_reused", "file-requested-again-on-cached-access", {"attr": attr, "requests": len(reqs)})
+            if target is None or self.rec.get(target, {}).get("tag") != self.cached_tag.get(attr):
+                CTX.probe("c20.cached_reused_after_file_changed")
+            return "cached"
+        if fired:
+            # the network failed during this access.  Nothing says HOW that surfaces; what must not happen is metadata that is
+            # in none of the files: either the access raises, or it returns what one of the candidate files really holds
+            self.count("C20", ["net-fault", attr, fired, raised is None])
+            if raised is not None:
+                return "fault:" + exc_class(raised)
+            base = self._simpath(self.compose.compose_path)
+            for cand in CANDIDATES[attr]:
+                p = posixpath.normpath(posixpath.join(base, cand))
+                r = self.rec.get(p)
+                if p in self.fs.files and r and not r["damage"] and r["kind"] == KINDS[attr]:
+                    direct, cls = self._direct(attr, p)
+                    if direct is not None and isinstance(obj, cls) and obj.dumps() == direct.dumps():
+                        self.cached[attr] = weakref.ref(obj)      # the Compose object owns what it loaded, not the observer
+                        self.cached_tag[attr] = r["tag"]
+                        CTX.probe("c20.loaded_despite_net_fault")
+                        return "loaded-under-fault"
+            raise Violation("C20", "C20.read_fault_surfaces", "object-returned-despite-net-%s" % fired, {"attr": attr})
+        if target is None:
+            self.count("C20", ["missing-remote", attr])
+            if raised is None:
+                raise Violation("C20", "C20.missing_file_is_runtimeerror", "object-for-missing-file", {"attr": attr})
+            if not isinstance(raised, RuntimeError):
+                raise Violation("C20", "C20.missing_file_is_runtimeerror", "missing-file-exctype/%s" % exc_class(raised), {"attr": attr})
+            if spelled not in str(raised):
+                raise Violation("C20", "C20.error_names_location", "missing-file-error-lacks-location", {"msg": str(raised)[:200], "base": spelled})
+            return "missing"
+        rec = self.rec.get(target)
+        if rec is None:
+            return "unknown-file"
+        dmg = rec["damage"]
+        if rec["kind"] != KINDS[attr]:
+            if raised is None and dmg is None:
+                raise Violation("C20", "C20.wrong_type_rejected", "wrong-metadata-type-loaded", {"attr": attr, "kind": rec["kind"]})
+            return "wrong-kind"
+        if dmg in ("bom", "utf16"):
+            return "other-encoding-remote(unspecified)"
+        if dmg:
+            self.count("C20", ["damaged-remote", attr, dmg])
+            if raised is None:
+                raise Violation("C20", "C20.undecodable_file_is_runtimeerror", "object-for-damaged-file/%s" % dmg, {"attr": attr})
+            if dmg in MUST_RUNTIME:
+                if not isinstance(raised, RuntimeError):
+                    raise Violation("C20", "C20.undecodable_file_is_runtimeerror", "damaged-file-exctype/%s/%s" % (dmg, exc_class(raised)),
+                                    {"attr": attr, "msg": str(raised)[:160]})
+                if spelled not in str(raised):
+                    raise Violation("C20", "C20.error_names_location", "damaged-file-error-lacks-location", {"msg": str(raised)[:200]})
+            return "damaged:" + exc_class(raised)
+        self.count("C20", ["valid-remote", attr, posixpath.basename(target), spelled.rsplit("/", 1)[-1] == "compose",
+                           bool(self.net.knobs.get("chunked"))])
+        if posixpath.basename(target) in ("image-manifest.json", "rpm-manifest.json"):
+            CTX.probe("c20.legacy_file_name_used")
+        if raised is not None:
+            raise Violation("C20", "C20.valid_file_loads", "valid-file-raises/%s" % exc_class(raised), {"attr": attr, "msg": str(raised)[:200]})
+        direct, cls = self._direct(attr, target)
+        if direct is None or not isinstance(obj, cls) or obj.dumps() != direct.dumps():
+            raise Violation("C20", "C20.accessor_equals_direct_load", "accessor-differs-from-direct-load",
+                            {"attr": attr, "file": target, "got_id": getattr(getattr(obj, "compose", None), "id", None)})
+        if not [t for t in reqs if t[1] == target and t[2] == "200"]:
+            raise Violation("C20", "C20.accessor_equals_direct_load", "object-returned-without-reading-the-file", {"attr": attr})
+        CTX.probe("c20.loaded_by_url")
+        self.cached[attr] = weakref.ref(obj)      # the Compose object owns what it loaded, not the observer
         self.cached_tag[attr] = rec["tag"]
         return "loaded"
